@@ -2,7 +2,7 @@
 From Coq Require Import List ZArith Lia Bool Arith.
 Import ListNotations.
 From V Require Import Lib.Enc Model.SyncListConc Proofs.SyncListConc Proofs.SyncListTop Run.C11
-  Proofs.SyncListJudgeBase Proofs.SyncListJudgeSim Proofs.SyncListJudgeStep.
+  Proofs.SyncListJudgeBase Proofs.SyncListJudgeSim Proofs.SyncListJudgeStep Proofs.SyncListJudgeLive.
 Local Open Scope Z_scope.
 Arguments Z.add : simpl never.
 Arguments Z.sub : simpl never.
@@ -121,8 +121,12 @@ Proof.
   assert (Hpo : forallb (forallb op_ok) progs = true /\ forallb (fun t => 0 <=? t) sched = true /\
                 let '(c, rts', _) := gos (seq_state (Z.to_nat npre) n) (init_rts progs) (sched ++ completion n progs) in
                 quiescent c rts' = true).
-  { destruct (gos (seq_state (Z.to_nat npre) n) (init_rts progs) (sched ++ completion n progs)) as [[c rts'] toks].
-    apply andb_true_iff in Hwf as [Hwf H3]. apply andb_true_iff in Hwf as [H1 H2]. auto. }
+  { apply andb_true_iff in Hwf as [Hwf H3]. apply andb_true_iff in Hwf as [H1 H2]. split; [exact H1|]. split; [exact H2|].
+    apply orb_true_iff in H3 as [H3|H3].
+    - (* no blocking PopWait: quiescence is a theorem *)
+      apply completion_quiescent. apply Forall_forall. intros l Hl. apply Forall_forall. intros o Ho.
+      rewrite forallb_forall in H3. specialize (H3 _ Hl). rewrite forallb_forall in H3. apply H3, Ho.
+    - destruct (gos (seq_state (Z.to_nat npre) n) (init_rts progs) (sched ++ completion n progs)) as [[c rts'] toks]. exact H3. }
   clear Hwf. destruct Hpo as (Hp1 & Hp2 & Hq).
   assert (Hprogs : progs_ok progs).
   { apply Forall_forall. intros l Hl. apply Forall_forall. intros o Ho.
